@@ -211,6 +211,13 @@ pub fn build_rl(n: Option<usize>, runs: &[(usize, usize)], split: &[u8], redunda
                 b.set_len(b.len());
                 b.set_len(0);
             }
+            if redundant_set_len && (k + i) % 3 == 0 {
+                // a refused call (the run would end beyond usize::MAX) and an empty run ahead of the vector leave the builder as it was
+                let _ = b.try_set(usize::MAX - 2, 10);
+                if b.len() < usize::MAX - 40 {
+                    let _ = b.try_set(b.len() + 17, 0);
+                }
+            }
         }
         if redundant_set_len && k % 3 == 0 {
             // set_len never shrinks: these calls must have no effect
